@@ -153,11 +153,13 @@ def run(chk, tier):
     except sym.Undecided as e:
         chk.blind("R-LIN", FN, "result undecided: %s" % e, w)
         return
-    for c2, v in loops.split_cases({"g": fld(ret, "message_groups")}):
-        some_g = any(len(c) == 3 and c[0] == ("discr", G) and c[2] == ((1, 1),) for c in c2)
+    for some_g, rs in ((True, ((1, 1),)), (False, sym.rs_compl(((1, 1),), "isize"))):
+        known = {("discr", G): rs}
+        gv = sym.prune(sym.rebuild(fld(ret, "message_groups"), {}, known), known)
         want = [("atom", fld(S, "message_groups"))] + ([("elem", gp)] if some_g else [])
-        chk.ob("R-LIN", FN, listalg.seq(v["g"]) == want, "at end of input the open group is %s" % ("pushed" if some_g else "absent and nothing is pushed") if listalg.seq(v["g"]) == want else
-               "at end of input the groups are %s (open group %s): the last group is lost" % (listalg.show(listalg.seq(v["g"])), "exists" if some_g else "absent"), w, key="final-flush:%s" % some_g)
+        got = listalg.seq(gv)
+        chk.ob("R-LIN", FN, got == want, "at end of input the open group is %s" % ("pushed" if some_g else "absent and nothing is pushed") if got == want else
+               "at end of input the groups are %s although the open group %s: the last group is lost" % (listalg.show(got), "exists" if some_g else "is absent"), w, key="final-flush:%s" % some_g)
 
 
 def equal_under(t, exp, conds, gp, mtype):
